@@ -72,6 +72,17 @@ func c10FlattenTree(n parse.Node, depth int, out *[]c10Flat) {
 		f.line, _ = strconv.Atoi(m[2])
 		f.col, _ = strconv.Atoi(m[3])
 	}
+	// The parser wraps a data node written directly under a choice in a case of the same name at the
+	// same position (RFC 6020 7.9.2 shorthand): that wrapper is not a source statement and is looked through.
+	if f.kw == "case" && len(n.Children()) == 1 {
+		c := n.Children()[0]
+		cloc, _ := c.ErrorContext()
+		cm, m := c10LocRe.FindStringSubmatch(cloc), c10LocRe.FindStringSubmatch(loc)
+		if c.Statement() != "case" && cm != nil && m != nil && cm[2] == m[2] && cm[3] == m[3] && c.Argument() != nil && c.Argument().String() == f.arg {
+			c10FlattenTree(c, depth, out)
+			return
+		}
+	}
 	*out = append(*out, f)
 	for _, c := range n.Children() {
 		c10FlattenTree(c, depth+1, out)
